@@ -37,6 +37,18 @@ type sioCase struct {
 	OnStream string `json:"on_stream,omitempty"`
 }
 
+// stallWriter sleeps before passing its first write on
+type stallWriter struct {
+	inner *vp.SyncBuf
+	d     time.Duration
+	once  sync.Once
+}
+
+func (w *stallWriter) Write(p []byte) (int, error) {
+	w.once.Do(func() { time.Sleep(w.d) })
+	return w.inner.Write(p)
+}
+
 // gateWriter lets the first write through to nobody and then blocks until released
 type gateWriter struct {
 	entered chan struct{}
@@ -161,6 +173,12 @@ func runStdioCase(c sioCase, bin, tmp string) map[string]interface{} {
 	hc := &vp.HostCfg{LegacyVersion: 1, Legacy: &vp.SetCfg{Proto: "grpc", Tag: "1"}, Allowed: []string{"netrpc", "grpc"}, Mux: mux, TempDir: tmp,
 		StartTimeoutMs: c.StartTimeoutMs}
 	p := vp.NewPair(bin, hc, pc, []string{"TMPDIR=" + tmp}, nil)
+	if c.Kind == "stall" {
+		// the host's stdout writer is stuck for StallMs at its first write; everything written meanwhile has to
+		// arrive once it goes on, once
+		p.Config.SyncStdout = &stallWriter{inner: p.Out, d: time.Duration(c.StallMs) * time.Millisecond}
+		p.Client = plugin.NewClient(p.Config)
+	}
 	defer p.Client.Kill()
 	if _, err := p.Client.Start(); err != nil {
 		out["err"] = err.Error()
@@ -213,6 +231,10 @@ func runStdioCase(c sioCase, bin, tmp string) map[string]interface{} {
 		if g := time.Duration(w.GapMs)*time.Millisecond + 1500*time.Millisecond; g > stall {
 			stall = g
 		}
+	}
+	if c.Kind == "stall" {
+		stall += time.Duration(c.StallMs) * time.Millisecond
+		deadline = deadline.Add(time.Duration(c.StallMs) * time.Millisecond)
 	}
 	last, lastChange := -1, time.Now()
 	for time.Now().Before(deadline) {
